@@ -8,7 +8,7 @@ CLAIMED = {
                 text='seeded search over interleavings (file-system-call granularity) of 2-5 contender processes running '
                      'the real FileLock/SemLock/LockFile code on a simulated kernel (SimFS flock semantics, simulated clock, '
                      'process kills); online mutual-exclusion monitor, justified-timeout oracle, relock-after-quiescence '
-                     'and deadlock detection. Sampling of schedules, not proof.',
+                     '(incl. giving up on stale information after the lock became free) and deadlock detection. Sampling of schedules, not proof.',
                 note='trusted: SimFS model of open/flock/unlink/close semantics (differentially tested against tmpfs), '
                      'pre-emption only at seam calls, CPython refcounting for descriptor lifetime',
                 technique='deterministic simulation: baton-passing scheduler over real threads + in-memory POSIX fs with flock, seeded schedule search, process-kill injection'),
@@ -27,7 +27,9 @@ CLAIMED = {
                      'operation is journalled; every journal prefix, and every 4096-aligned tear of every write, is '
                      'reconstructed and read back through a fresh cache object (thorough: all crash points of each history; '
                      'quick: a seeded sample of 10 per history). Oracle: old / complete new / allowed-missing, never '
-                     'truncated or foreign bytes, bystanders unchanged, store works again after restart.',
+                     'truncated or foreign bytes, bystanders unchanged; then a continuation on the post-crash state (the '
+                     'interrupted store repeated, stores to other addresses, a remove - in alternating order) must behave like a map '
+                     'and keep bundles structurally valid.',
                 note='trusted: process-death crash model (page-cache survives, syscalls ordered, page-granular tears), SimFS '
                      'journal replay; histories are sampled, crash points per history are enumerated',
                 technique='deterministic simulation: journalled simulated file system, enumeration of crash prefixes and torn writes, restart through fresh objects'),
@@ -45,8 +47,8 @@ CLAIMED = {
                      'forms, both result modes, pool sizes 1-7, 0-6 items, seeded failing positions): worker threads are the '
                      'real ThreadWorker threads adopted by the baton scheduler, queues are scheduler-aware, so arbitrary '
                      'completion orders and arbitrarily stalled workers are produced; oracle: one result per input in input '
-                     'order, own exception object per failing item (or raised after an in-order prefix), each item run at most '
-                     'once, the call terminates.',
+                     'order (None is a legitimate result), own exception object per failing item (or raised after an in-order prefix), each item run at most '
+                     'once, the call terminates; a second call on the same pool object is judged the same way.',
                 note='trusted: SimQueue has queue.Queue semantics; pre-emption only at queue operations and explicit item steps',
                 technique='deterministic simulation: baton-passing scheduler adopting the pool\'s real worker threads, seeded completion-order search'),
     'C08': dict(level='exploration', ref='DESIGN.md 6.4',
@@ -65,7 +67,7 @@ CLAIMED = {
                 text='seeded histories of tile requests, clock advances (sub-second, to a second boundary, backwards, hours), '
                      'threshold changes (relative age, absolute ISO time, mtime of a file), touches of that file, upstream '
                      'failure/recovery and real refresh seed tasks, on the real TileManager (single- and meta-tile creation) with '
-                     'file cache on SimFS or per-level sqlite cache; oracle from the timestamps actually recorded: stale tile => '
+                     'file cache (also with symlinked single-colour tiles) on SimFS or per-level sqlite cache, plus two or three concurrent requests under a refresh rule; oracle from the timestamps actually recorded: stale tile => '
                      'upstream asked, tile rewritten with the new fetch generation; fresh tile => no upstream call, same '
                      'generation; a failed refresh never removes or changes the stored tile; same-second band unspecified.',
                 note='trusted: simulated clock behind time.time/time.sleep/datetime.now of util/times.py, stub upstream, SimFS mtimes; '
@@ -75,19 +77,20 @@ CLAIMED = {
                 text='seeded histories of GETs, conditional GETs (If-None-Match current/previous/garbage, If-Modified-Since '
                      'before/equal/after/malformed), clock advances, rewrites through the real expiry path and upstream-500 '
                      'periods against the full WSGI application built by the real loader (TMS, KML, WMTS REST/KVP, WMS-C; file '
-                     'cache on SimFS or per-level sqlite cache; single and meta tiles) with a simulated upstream behind '
+                     'cache on SimFS - also with linked single-colour tiles - or per-level sqlite cache; single and meta tiles; one source or two merged sources of which only the overlay fails) with a simulated upstream behind '
                      'HTTPClient.open; oracle: identical validators and body while the fetch generation in the pixels is '
-                     'unchanged, 304 + empty body for the current ETag, every 304 justified, fill images carry no-store and '
-                     'are never served from the cache.',
+                     'unchanged, 304 + empty body for the current ETag, every 304 justified (also for the previous copy\'s validators, pre-1970 '
+                     'dates and requests that themselves trigger the refresh), fill images carry no-store, get no 304 and are never '
+                     'served from the cache.',
                 note='trusted: simulated HTTP transport and clock; sqlite backend outside the simulator; creating responses are '
                      'excluded from the equality clause',
                 technique='deterministic simulation: full WSGI stack over simulated clock, file system and upstream with HTTP-500 injection; model-based history checking'),
     'C12': dict(level='exploration', ref='DESIGN.md 6.6',
                 text='seeded cache contents (tiles stored at seeded simulated times, some in the same second; foreign objects: a '
                      'second cache, lock files, stray files) x one cleanup task (level list/range/all; remove_all, remove_before as '
-                     'absolute time / relative age / file mtime, default; full extent or bbox coverage) built by the real '
+                     'absolute time / relative age / file mtime, default; full extent, bbox, polygon or multi-part coverage; factor-2, sqrt2 and custom-resolution grids) built by the real '
                      'CleanupConfiguration and executed by the real cleanup() - all three strategies, with the real '
-                     'TileCleanupWorker threads under the scheduler - on file (6 layouts), compact v1/v2 (SimFS), sqlite, mbtiles, '
+                     'TileCleanupWorker threads under the scheduler - on file (6 layouts, linked single-colour tiles, cache-level refresh_before), compact v1/v2 (SimFS), sqlite, mbtiles, '
                      'geopackage (tmpfs); oracle from recorded timestamps and independent geometry: must-remove / must-keep / '
                      'unspecified (same second, sub-pixel overlap), foreign objects untouched, task terminates without raising.',
                 note='trusted: SimFS walk/rmtree/mtime semantics, simulated clock; sqlite backends outside the simulator',
@@ -97,9 +100,9 @@ CLAIMED = {
                      'subsets, bbox / concave / multi-part coverages, meta sizes, skip_geoms_for_last_levels, progress cadence, '
                      'per-hand-off simulated work time) run through the real seed()/TileWalker/SeedProgress/ProgressLog/ProgressStore '
                      'with a recording pool at the hand-off; uninterrupted run compared with a brute-force shapely oracle over whole '
-                     'levels (complete, minimal up to a one-pixel band); then the same task with 1-3 seeded interruptions '
-                     '(exception or hard kill at a hand-off, at a line event of the seeding code via sys.settrace, or inside the '
-                     'progress-file write) each followed by a restart from the saved progress: union of hand-offs must cover the '
+                     'levels (complete up to one pixel of the finest selected level, minimal up to a one-pixel band); then the same task with 1-3 seeded interruptions '
+                     '(exception or hard kill at a hand-off, at a line event of the seeding code via sys.settrace, inside the '
+                     'progress-file write, or a stop through SeedProgress.running()) each followed by a restart from the saved progress: union of hand-offs must cover the '
                      'uninterrupted run, the progress file must always load.',
                 note='trusted: recording pool instead of real workers (the hand-off is the stated observation point), SimFS for the '
                      'progress file, simulated clock; interruption points are sampled, not enumerated',
